@@ -4,7 +4,8 @@ V = os.path.dirname(os.path.dirname(os.path.abspath(__file__)))
 BASE = "cd /repo && env -u PYTONIQ_CORE_VERIF /venv/bin/python -m pytest -ra -q -p no:cacheprovider --timeout=900 --continue-on-collection-errors"
 CHECKS = {
  'C18': dict(text="TLC evaluates the bit-serial catalogue definitions of CRC-16/XMODEM and CRC-32C (TonCrc) over every recorded "
-                  "library output: all one-byte strings (every table entry), two-byte strings, structured and random strings to 4 KiB; "
+                  "library output: all one-byte strings (every table entry), two-byte strings, structured and random strings to 4 KiB, crafted strings "
+                  "to 64 KiB whose register is zero at every power-of-two boundary, byte order named by run-time string objects; "
                   "the definitions themselves are model-checked for linearity/burst detection and anchored on catalogue check values. "
                   "A pure function has no interesting state graph, so the model-checking part is small and the weight is on exhaustive "
                   "small scope + trace validation.",
@@ -16,7 +17,8 @@ CHECKS['C01'] = dict(
     text="The TON representation hash/depth is an explicit TLA+ definition (TonCell over a pure-TLA+ SHA-256). TLC model-checks the DAG-growth "
          "machine (hash equality = structural equality, depth definition, level flatness) and enumerates every heap within the constants; each "
          "is replayed through six construction routes and TLC re-derives every reported hash/depth/equality from the recorded content. Random "
-         "part covers every data length 0..1023, shared DAGs and a depth-1023 chain.",
+         "part covers every data length 0..1023, shared DAGs, a depth-1023 chain, foreign bags that store (right and wrong) hashes next to cells, "
+         "and cell pairs whose hashes agree on a 32-bit window (equality and dictionary keys are decided by the whole hash).",
     note="TonSha/TonCell transcriptions (anchored by FIPS vectors, the symbolic-hash invariants and the bundled main-net block in C02); TLC; recording driver",
     tech="TLA+ cell-hash spec (pure-TLA+ SHA-256) model-checked by TLC; TLC-enumerated DAGs replayed into the library; recorded hashes validated by TLC",
     ref="8/C01")
@@ -24,13 +26,15 @@ CHECKS['C02'] = dict(
     text="Level masks and per-level hashes/depths of pruned, library, Merkle-proof and Merkle-update cells are defined in TonCell (transcription of "
          "DataCell::create). TLC checks pruning invariance, validity of the exotic constructors, mask laws and proof completeness on the DAG machine "
          "and on a directed pruning machine (symbolic and real hash), emits every reachable heap; the library builds and parses each and TLC "
-         "re-derives mask/hash/depth at levels 0..3 of every cell, plus the 301-cell main-net block.",
+         "re-derives mask/hash/depth at levels 0..3 of every cell, plus the 301-cell main-net block; parse routes include foreign bags that "
+         "store hashes and depths next to special cells.",
     note="TonCell transcription; TLC; stored hashes of the random prunings come from the library (inputs only)",
     tech="TLA+ level-hash spec model-checked by TLC (pruning invariance); TLC-generated exotic DAGs replayed; recorded masks/hashes/depths validated by TLC",
     ref="8/C02")
 CHECKS['C03'] = dict(
     text="to_boc/from_boc round trips are recorded for TLC-enumerated and random DAGs (ordinary and exotic, cell-count and payload-width "
-         "boundaries) under all 6 option sets, three input forms and the cell/slice/builder entry points; TLC verifies that the parsed "
+         "boundaries, chains at the depth limit parsed under the interpreter's default recursion limit, pools of live cells under several roots) "
+         "under all 6 option sets, three input forms and the cell/slice/builder entry points; TLC verifies that the parsed "
          "structure is isomorphic to the source (content, type, reference lists, recursively). The format itself (TonBoc) is model-checked: "
          "Decode(Encode(..)) = id under every encoder freedom.",
     note="TonBoc transcription; isomorphism maps are untrusted hints checked by TLC; content de-duplication of the source heap in the driver",
@@ -38,12 +42,13 @@ CHECKS['C03'] = dict(
 CHECKS['C04'] = dict(
     text="Every byte string emitted by Cell.to_boc is decoded by the strict TLA+ decoder (header constraints, widths, forward references, "
          "distinct cells, completion tags, level-mask bits, cumulative/doubled index, CRC-32C, exact length) and must decode to the source "
-         "DAG. The decoder is model-checked against the spec encoder under all freedoms and against corruption (MC_Boc).",
+         "DAG - also when the same live cells are emitted under several roots one after another. The decoder is model-checked against the spec encoder under all freedoms and against corruption (MC_Boc).",
     note="TonBoc.Decode is my reading of boc.tlb/boc.cpp; TonCrc anchored on catalogue vectors",
     tech="strict TLA+ BoC decoder evaluated by TLC on library output (trace validation) + TLC model check Decode/Encode", ref="8/C04")
 CHECKS['C05'] = dict(
     text="TLC enumerates every encoding of every small DAG under all encoder freedoms (sizes, offset widths, index, cache bits, CRC, stored "
-         "hashes with real SHA-256, 1-2 roots incl. repeated/non-first, every forward cell order, three magics); the driver derives "
+         "hashes with real SHA-256, 1-2 roots incl. repeated/non-first, every forward cell order, three magics, cells within 7 bits of the "
+         "1023-bit limit under every count/offset width); the driver derives "
          "truncations, extensions, single-bit flips and reference corruptions; Cell.from_boc's result on each input is compared by TLC with "
          "Decode of the very same bytes. FlipDetected/TruncExtendErr/BadRefErr are model-checked on the format.",
     note="TonBoc transcription; corruption classes limited to those the property names; CRC re-sealing uses the library crc32c (validated by C18)",
@@ -52,13 +57,15 @@ BAGNOTE = "TonBag.Do is my reading of the TL-B encodings and of capacity rules; 
 CHECKS['C06'] = dict(
     text="TonBag is an explicit state machine of the Builder/Slice/Cell pool with one action per public call; TLC model-checks it with scaled limits "
          "(RoundTrip, PeekEqLoad, Capacity, CellsImmutable, FrameOne, encoding lemmas over all small integers). Recorded library behaviours (typed "
-         "stores with boundary values per width/byte class, all address forms, snake strings, then peek+load of each item) are validated step by "
-         "step by TLC: bits written, values read back, nothing left.",
+         "stores with boundary values per width/byte class, all address forms, UTF-8 text with multi-byte characters, snake strings, then "
+         "peek+load of each item) are validated step by step by TLC: bits written, values read back, nothing left, and what every builder / "
+         "slice reports about its remaining room.",
     note=BAGNOTE, tech="TLA+ Builder/Slice state machine model-checked by TLC + trace validation of recorded call sequences (full state after every call)", ref="8/C06")
 CHECKS['C07'] = dict(
     text="Same machine; the guard of every action (value fits its width, bits/refs fit the remaining capacity, enough bits/refs remain, depth <= 1023) "
          "is the specification of ok/err. Recorded stores at every fill level x ref level, out-of-range neighbours of every bound, over-reads on "
-         "built/BoC-parsed/plain-bitarray cells, composite stores and depth 1022..1024 are validated by TLC: refused iff it does not fit.",
+         "built/BoC-parsed/plain-bitarray cells, composite stores, the empty field (## 0) and depth 1022..1024 are validated by TLC: refused "
+         "iff it does not fit.",
     note=BAGNOTE, tech="TLA+ state machine guards decide ok/err; TLC trace validation of recorded boundary behaviours; TLC model check of Capacity", ref="8/C07")
 CHECKS['C08'] = dict(
     text="Same machine; every action owns at most one object (FrameOne) and never a cell (CellsImmutable), model-checked by TLC. Random interleavings "
@@ -69,30 +76,36 @@ CHECKS['C09'] = dict(
     text="TonHashmap defines the Patricia tree of a map and an independent parser for all label kinds; TLC checks Parse(Build(m)) = m for every "
          "key set of width 3 (4 thorough) under 7 label policies, plain and augmented. Every such key set, wider sparse sets and random sets "
          "up to width 1023 are serialised by the library in several insertion orders and parsed through six entry points; TLC decodes the "
-         "emitted cells itself and compares pairs, order, order-independence, emptiness and key-range rejection, for five key forms.",
+         "emitted cells itself and compares pairs, order, order-independence, emptiness and key-range rejection (through set, set_int_key "
+         "and a key_serializer), for five key forms and three value helpers; one map object serialised, edited (set_int_key, its entry "
+         "dictionary, the dictionary it was built over) and serialised again.",
     note="TonHashmap transcription of hm_edge/hml_*; values are 8..32-bit unsigned integers; key widths above 900 only with compressible keys (a leaf must fit a cell)",
     tech="TLA+ Hashmap spec model-checked by TLC over all key sets; TLC-enumerated maps replayed; recorded cells and parse results validated by TLC", ref="8/C09")
 CHECKS['C10'] = dict(
     text="RefKind (transcribed append_dict_label) is model-checked equal to the declarative shortest-with-tie-break rule for every (n, m, same) "
          "up to the cfg bound; the library's label choice is observed through the emitted root cell for thousands of triples incl. every decision "
          "boundary; emitted cells must equal the canonical tree structurally (root hash recomputed by TLC on a sample); the plain and augmented "
-         "parsers are run on every tree TLC builds for every key set x 7 label policies and on prunings of them.",
+         "parsers are run on every tree TLC builds for every key set x 7 label policies and on prunings of them, also as an inline field "
+         "behind references that have been read already; every serialisation of a map must be the canonical tree.",
     note="RefKind transcription from memory of dict.cpp (cross-checked by the MinKind lemma); pruned branches carry library hashes (inputs)",
     tech="TLC lemma over all label triples + TLC-generated valid/non-canonical/pruned trees replayed into the parsers + TLC validation of results", ref="8/C10")
 CHECKS['C11'] = dict(
     text="CheckProof / CheckBlockHeader / account acceptance are TLA+ predicates over cells (TonProof). Soundness and completeness of CheckProof "
          "are model-checked with an injective symbolic hash over a bounded forgery space (every candidate body with any pruned token/depth vs "
          "every target tree); completeness and pruning invariance on the directed pruning machine. Genuine proofs (TLC-enumerated prunings, random "
-         "DAGs, synthetic block/state/account scenarios) and nine families of forgeries are run through the three library checks and TLC decides "
-         "from the recorded cells, with real SHA-256, whether each had to be accepted.",
-    note="TonCell/TonProof transcriptions; proofs are assembled with the library Builder and library hashes (inputs only); account scenarios without extra currencies",
+         "DAGs, synthetic block/state/account scenarios incl. update children pruned twice) and a dozen families of forgeries (among them a "
+         "state smuggled through a hash slot the block hash does not cover, and absence claimed by pruning the path to an account) are run "
+         "through the three library checks and TLC decides from the recorded cells, with real SHA-256, whether each had to be accepted; the "
+         "specification states what commits the new state (UpdateCommitsNewState).",
+    note="TonCell/TonProof transcriptions; proofs are assembled with the library Builder and library hashes (inputs only); proofs of absence are not demanded",
     tech="TLC model check of proof soundness (symbolic hash) + TLC validation of accept/reject outcomes on recorded genuine and forged proofs", ref="8/C11")
 CHECKS['C12'] = dict(
     text="The signature loop is a TLA+ algorithm (Start/Take/Decide with seen-set) model-checked to refine the declarative supermajority rule for all "
          "validator sets <= 3 x weights 1..3 x signature sequences <= 3 (4 thorough); the variants without de-duplication or with >= are refuted "
          "(negative controls run on every check). The same sets/sequences, realised with real Ed25519 keys, are fed to check_block_signatures and "
-         "TLC decides accept/reject per record; node-id and to-sign layouts are recomputed by TLC (SHA-256).",
-    note="Ed25519 itself is not specified: items are labelled valid/invalid/other/foreign by construction with PyNaCl; weights < 2^20",
+         "TLC decides accept/reject per record (signature fields of 63/65/64+n bytes count as invalid; descriptors also taken from the library's "
+         "parser with weights up to 2^64-1, compared in limb arithmetic); node-id and to-sign layouts are recomputed by TLC (SHA-256).",
+    note="Ed25519 itself is not specified: items are labelled valid/invalid/other/long/short/padded/foreign by construction with PyNaCl",
     tech="TLA+ quorum algorithm refinement model-checked by TLC (with negative controls) + TLC validation of recorded accept/reject outcomes", ref="8/C12")
 CHECKS['C13'] = dict(
     text="TonAddr defines the raw and friendly text forms (tag, int8 workchain, CRC-16/XMODEM, both base64 alphabets). TLC proves ParseRender for all "
@@ -113,7 +126,8 @@ CHECKS['C20'] = dict(
     text="Channel key selection, key ids, packet header and AES key/iv layout are TLA+ definitions with SHA-256 evaluated by TLC; the two-peer channel "
          "machine with symbolic DH/AES is model-checked (A.enc = B.dec, delivery, expected key id) for every id ordering incl. equal ids. Real "
          "channels for seeded key pairs (both orderings, forced equal ids), packets both ways, the signing helper with altered message/key/"
-         "signature, and generated mnemonics are recorded and validated by TLC.",
+         "signature, generated mnemonics, and key-derivation histories (a function of mnemonic and salt, ground truth from hashlib) are "
+         "recorded and validated by TLC.",
     note="X25519/Ed25519/AES/PBKDF2 are library primitives taken as ground truth (shared secret recomputed with nacl, reference ciphertext with Cryptodome)",
     tech="TLA+ two-peer channel machine with symbolic crypto model-checked by TLC + TLC validation of recorded keys/packets (SHA-256 in TLA+)", ref="8/C20")
 CHECKS['C14'] = dict(
@@ -130,25 +144,27 @@ CHECKS['C15'] = dict(
          "(TonMsg.Encodings over the TL-B interpreter; addresses incl. anycast). For ~2400 header x state-init x body combinations at the bit "
          "and reference boundary of EVERY placement TLC checks that the library's cell is one of the valid encodings and that serialisation "
          "does not fail when one exists, and the parser is run on EVERY fitting encoding produced by the specification; stand-alone wrappers "
-         "(StateInit, CurrencyCollection, wallet v3/v4 data, NFT data, HashUpdate) are compared with the unique spec encoding and parsed back; "
+         "(StateInit, CurrencyCollection, wallet v3/v4 and highload wallet data with its message dictionary, NFT data, HashUpdate) are compared "
+         "with the spec encodings (every placement variant of nested messages) and parsed back; "
          "value-isolation histories (default-constructed / parsed values edited in place must not leak into later values).",
-    note=TLBNOTE + "; serialisation direction restricted to canonical (minimal var-int) values; highload wallet query dictionary not covered",
+    note=TLBNOTE + "; serialisation direction restricted to canonical (minimal var-int) values",
     tech="TLA+ TL-B interpreter + message placement spec; TLC encodes driver-composed values (spec -> code) and validates recorded cells/fields (code -> spec)", ref="8/C15, 13")
 CHECKS['C16'] = dict(
     text="A TL-B interpreter in TLA+ (schemas as data, generic encoder, generic DECODER, leaf flattener with the abstract value each leaf must "
-         "parse to) over a transcription of 60 block.tlb types (all seven transaction descriptions and phases, Transaction, Account, "
+         "parse to) over a transcription of 130 block.tlb types (all seven transaction descriptions and phases, Transaction, Account, "
          "ShardAccount, AccountBlock, InMsg x9, OutMsg x10, envelopes v1/v2, BlockInfo, ValueFlow x2, ShardDescr x2, ValidatorSet x2, "
-         "McStateExtra, McBlockExtra, BlockExtra, Block ...). TLC checks tag prefix-freeness and decode(encode(v)) = v on every generated "
+         "McStateExtra, McBlockExtra, BlockExtra, Block, ShardStateUnsplit, every ConfigParam n, output action lists ...). TLC checks tag prefix-freeness and decode(encode(v)) = v on every generated "
          "value; it generates, per type, a zero and a rich base value, one-factor variations around both, every combination of optional "
          "parts, and (thorough) two-factor variations; the library parses each and TLC compares every leaf, the constructor label and the "
          "consumed bits/refs. The bundled main-net block is decoded by the specification and compared with the library's Block object.",
-    note=TLBNOTE + "; types covered are listed in the evidence file; ShardStateUnsplit and the Merkle update of the block are not transcribed; root extras of HashmapAugE are not exposed by the library and not compared",
+    note=TLBNOTE + "; types covered are listed in the evidence file; the Merkle update of the block is not transcribed; root extras of HashmapAugE are not exposed by the library and not compared",
     tech="TLC-generated TL-B values and encodings replayed into the parsers; recorded field values validated by TLC leaf by leaf; real block decoded by the TLA+ schema decoder", ref="8/C16, 13")
 CHECKS['C17'] = dict(
     text="TonVm encodes stacks (VmStackList chaining, tinyint/int257 selection, tuples with VmTupleRef nil/single/any, cells, slices, builders, "
          "ten continuation kinds with full control data: nargs, saved stack, saved registers, codepage - zero values included). For hundreds "
          "of random and boundary stacks the library serialises twice with a snapshot of the caller's values in between; TLC checks the cell "
-         "equals the spec encoding, the caller's values are unchanged and the second cell is equal; the library parses the specification's "
+         "equals the spec encoding, the caller's values are unchanged and the second cell is equal (also after a nested value was edited in "
+         "place between two serialisations); the library parses the specification's "
          "encoding twice (incl. non-canonical VmCellSlice windows) and TLC compares the values of both parses.",
     note="TonVm transcription; values whose encoding needs more than 4 references in one cell are not representable and nothing is demanded for them",
     tech="TLA+ VmStack encoder: TLC-encoded stacks replayed into the parser and recorded serialisations validated by TLC (incl. caller-state frame)", ref="8/C17, 13")
